@@ -9,6 +9,9 @@ from ..core import CaseResult, Check
 from ..engines import values as V
 
 
+COUPLED = {"dip": ("vertical",), "vertical": ("dip",)}
+
+
 def _pairs():
     return V.discover_pairs()
 
@@ -46,6 +49,12 @@ class C03(Check):
                         "ops": [{"attr": attr, "seed": [5, 3, 1]}, {"attr": attr, "seed": [0]}], "reload_first": False})
             out.append({"owner": owner, "cls": cname, "geom": {"n": 3, "g": [1, 2, -3, 4, 0, 5]},
                         "ops": [{"attr": attr, "seed": [100]}, {"attr": attr, "seed": [1, 1, 2]}], "reload_first": True})
+            if attr == "dip" and (owner, cname, "vertical") in set(_pairs()):
+                # coupled attributes assigned one after the other: the second assignment must win
+                for first, second in (("vertical", "dip"), ("dip", "vertical")):
+                    out.append({"owner": owner, "cls": cname, "geom": {"n": 3, "g": [1, 2, -3, 4, 0, 5]},
+                                "ops": [{"attr": first, "seed": [4, 1]}, {"attr": second, "seed": [4, 1]}],
+                                "reload_first": False})
         return out
 
     def strategy(self, tier):
@@ -156,7 +165,9 @@ class C03(Check):
                     res.fail(f"C03/getter-differs-after-assign/{owner}/{cname}/{attr}",
                              f"assigned {want!r:.300}, getter returns {got!r:.300}")
                     return res
-                done = [d for d in done if d[0] != attr]  # a later assignment to the same attribute supersedes
+                # a later assignment to the same attribute supersedes; so does one to the attribute it is coupled with
+                # (Grid2D: dip == 90 <=> vertical)
+                done = [d for d in done if d[0] != attr and d[0] not in COUPLED.get(attr, ())]
                 done.append((attr, want, getter, before != want))
             if not done:
                 return res
